@@ -227,3 +227,178 @@ def dump(path):
 
 if os.environ.get('GLUE_VERIF_TRACE') == '1' and os.environ.get('GLUE_VERIF_TRACE_AUTOINSTALL') == '1':
     install()
+
+
+# ------------------------------------------------------------------------------------------------
+# DataCollection membership traces (E2 for C06): one trace per DataCollection object; every event carries the
+# projected state AFTER the call (collection order, live groups, per dataset the groups of its grouped subsets, per group
+# the datasets of its subsets, grouped subsets of live groups still carried by datasets that left the collection).
+
+CTRACES = []
+_BY_DC = weakref.WeakKeyDictionary()
+_GROUP_OWNER = weakref.WeakKeyDictionary()      # SubsetGroup -> _CollTrace that saw it in its collection
+
+
+class _CollTrace(object):
+    def __init__(self):
+        self.events = []
+        self.dnames = {}        # id(data) -> name
+        self.gids = {}          # id(group) -> number
+        self.keep = []
+        self.gone = []          # datasets seen earlier (strong references: identity must stay unambiguous)
+        self.ngrp = 0
+        self.last = None
+        self.depth = 0
+
+    def dname(self, d):
+        k = id(d)
+        if k not in self.dnames:
+            self.dnames[k] = 'D%d' % (len(self.dnames) + 1)
+            self.keep.append(d)
+        return self.dnames[k]
+
+    def gid(self, g, adopt=True):
+        k = id(g)
+        if k not in self.gids:
+            if not adopt:
+                return None
+            self.ngrp += 1
+            self.gids[k] = self.ngrp
+            self.keep.append(g)
+            _GROUP_OWNER[g] = self
+        return self.gids[k]
+
+    def project(self, dc):
+        from glue.core.subset_group import GroupedSubset
+        coll = [self.dname(d) for d in dc._data]
+        groups = [self.gid(g) for g in dc._subset_groups]
+        live = set(groups)
+
+        def groups_of(d):
+            out = []
+            for s in d.subsets:
+                if isinstance(s, GroupedSubset):
+                    # groups that no traced collection ever listed (a dataset brought along from elsewhere) and groups of
+                    # other collections cannot be attributed to this collection: not its membership
+                    if _GROUP_OWNER.get(s.group) is self:
+                        out.append(self.gid(s.group, adopt=False) or 0)
+            return out
+        subs = [groups_of(d) for d in dc._data]
+        members = [[self.dnames.get(id(s.data), 'X') for s in g.subsets] for g in dc._subset_groups]
+        strays = []
+        present = set(id(d) for d in dc._data)
+        for d in self.keep:
+            if id(d) in self.dnames and id(d) not in present and hasattr(d, 'subsets'):
+                strays += [[self.dnames[id(d)], n] for n in groups_of(d) if n in live]
+        hub = dc.hub
+        delay = int(getattr(hub, '_delay_depth', 0) or 0) if hub is not None else 0
+        return {'coll': coll, 'groups': groups, 'subs': subs, 'members': members, 'strays': strays, 'delay': delay, 'ngrp': self.ngrp}
+
+
+def install_collection():
+    from glue.core.data_collection import DataCollection
+    from glue.core import state as S
+    if getattr(DataCollection, '_verif_traced', False):
+        return
+    DataCollection._verif_traced = True
+    o_append, o_remove = DataCollection.append, DataCollection.remove
+    o_new, o_rm = DataCollection.new_subset_group, DataCollection.remove_subset_group
+    o_object = S.GlueUnSerializer.object
+
+    def tr(dc):
+        t = _BY_DC.get(dc)
+        if t is None:
+            t = _CollTrace()
+            _BY_DC[dc] = t
+            CTRACES.append(t)
+        return t
+
+    def key(st):
+        return (tuple(st['coll']), tuple(st['groups']))
+
+    def emit(t, dc, ev, **kw):
+        st = t.project(dc)
+        t.last = key(st)
+        t.events.append(dict(st, ev=ev, **kw))
+
+    def sync(t, dc):
+        """something changed the collection without going through the traced calls (session loaders assign the private
+        lists, tests poke them): adopt what is there"""
+        st = t.project(dc)
+        if t.last is not None and key(st) != t.last or t.last is None and (st['coll'] or st['groups']):
+            t.last = key(st)
+            t.events.append(dict(st, ev='Adopt'))
+
+    def wrap(orig, evname, arg_of):
+        def f(self, *a, **k):
+            t = tr(self)
+            if t.depth > 0 or not hasattr(self, '_data') or not hasattr(self, '_subset_groups'):
+                return orig(self, *a, **k)
+            sync(t, self)
+            t.depth += 1
+            ok = False
+            try:
+                r = orig(self, *a, **k)
+                ok = True
+                return r
+            finally:
+                t.depth -= 1
+                if ok:
+                    try:
+                        emit(t, self, evname, **arg_of(t, self, a, k, r))
+                    except Exception:
+                        t.events.append({'ev': 'Broken'})
+        return f
+
+    def a_append(t, dc, a, k, r):
+        d = a[0] if a else k.get('data')
+        if isinstance(d, list):
+            return {'d': 'list'}
+        return {'d': t.dname(d)}
+
+    def a_remove(t, dc, a, k, r):
+        d = a[0] if a else k.get('data')
+        return {'d': t.dnames.get(id(d), 'X')}
+
+    def a_new(t, dc, a, k, r):
+        return {'g': t.gid(r)}
+
+    def a_rm(t, dc, a, k, r):
+        g = a[0] if a else k.get('subset_grp')
+        return {'g': t.gids.get(id(g), 0)}
+
+    def w_append(self, data):
+        if isinstance(data, list):          # append(list) is extend: the elements are traced one by one
+            return o_append(self, data)
+        return wrap(o_append, 'Append', a_append)(self, data)
+    DataCollection.append = w_append
+    DataCollection.remove = wrap(o_remove, 'Remove', a_remove)
+    DataCollection.new_subset_group = wrap(o_new, 'NewGroup', a_new)
+    DataCollection.remove_subset_group = wrap(o_rm, 'RemoveGroup', a_rm)
+
+    depth = [0]
+
+    def w_object(self, obj_id):
+        depth[0] += 1
+        try:
+            r = o_object(self, obj_id)
+        finally:
+            depth[0] -= 1
+        if depth[0] == 0:
+            for c in (r, getattr(r, 'data_collection', None), getattr(getattr(r, 'app', None), 'data_collection', None)):
+                if isinstance(c, DataCollection):
+                    t = tr(c)
+                    try:
+                        sync(t, c)
+                        emit(t, c, 'Observe')
+                    except Exception:
+                        pass
+        return r
+    S.GlueUnSerializer.object = w_object
+
+
+def dump_collections(path):
+    out = [{'events': t.events} for t in CTRACES if t.events]
+    with open(path, 'w') as f:
+        json.dump(out, f)
+    return len(out)
